@@ -234,6 +234,9 @@ class FactoredInference:
             alpha = stepsize(t)
             for i in range(25):
                 theta = omega - alpha*dL
+                # potentials are only defined up to a constant per clique, a direction the line
+                # search cannot see: pin each clique's maximum at 0 so they cannot drift
+                theta = CliqueVector({ cl : theta[cl] - theta[cl].max() for cl in theta })
                 mu = model.belief_propagation(theta)
                 ans = self._marginal_loss(mu)
                 if nols or curr_loss - ans[0] >= 0.5*alpha*dL.dot(nu-mu):
